@@ -266,6 +266,8 @@ class JSON(Filetype):
         except json.decoder.JSONDecodeError as de:
             return f'Error parsing {os.path.basename(path)}: {de.msg}: line {de.lineno}, column {de.colno} ' \
                    f'(char {de.pos})'
+        except UnicodeDecodeError as ude:
+            return f'Error parsing {os.path.basename(path)}: {ude!s}'
 
     def get_default_formatter(self) -> JSONFormatter:
         return JSONFormatter.DEFAULT_INSTANCE
@@ -293,7 +295,7 @@ class JSON5(Filetype):
         try:
             return self.build_tree(path=path, options=options)
         except ValueError as ve:
-            return f'Error parsing {os.path.basename(path)}: {ve:!s}'
+            return f'Error parsing {os.path.basename(path)}: {ve!s}'
 
     def get_default_formatter(self) -> JSONFormatter:
         return JSONFormatter.DEFAULT_INSTANCE
